@@ -10,6 +10,8 @@
 #include "LIAInterpolator.h"
 #include "CutCreator.h"
 
+#include <common/VerifHooks.h>
+
 #include <common/Random.h>
 #include <models/ModelBuilder.h>
 
@@ -123,6 +125,15 @@ void LASolver::storeExplanation(Simplex::Explanation &&explanationBounds) {
         explanation.push(asgn);
         explanationCoefficients.push_back(explanationBounds[i].coeff);
     }
+    OPENSMT_VERIF(if (verif::on() and explanation.size() > 0) {
+        std::string text = "F " + std::to_string(verif::currentSolver) + " " + std::to_string(explanation.size());
+        for (int i = 0; i < explanation.size(); i++) {
+            verif::decls(logic, explanation[i].tr);
+            text += " { " + explanationCoefficients[i].get_str() + (explanation[i].sgn == l_True ? " + " : " - ") +
+                    logic.termToSMT2String(explanation[i].tr) + " }";
+        }
+        verif::event(text.c_str());
+    });
 }
 
 bool LASolver::check_simplex(bool complete) {
